@@ -337,6 +337,9 @@ pub enum Ev {
     /// Marks the start of the n-th `solve` call on a reused solver.
     SolveStart(usize),
     SolveEnd(usize),
+    /// The poll with this index (the `CancelPoll` event that follows) was made while one of the
+    /// provider's own re-entrant cache queries was being polled: its answer goes to the provider.
+    PollForProvider(usize),
     /// The cancellation signal was raised (sticky) while the provider handled the callback event
     /// with this index (`Cancel::RaisedAt`).
     Raised(usize),
@@ -406,11 +409,33 @@ pub struct Prov {
     /// if set, `sort_candidates` is not a pure function of its input: candidates whose
     /// dependencies the cache can already provide at that moment are preferred (then rank)
     pub stateful_sort: Cell<bool>,
+    /// > 0 while one of the provider's OWN (re-entrant) cache queries is being polled: a poll of the
+    /// cancellation signal made then is made on behalf of the provider, not of the solver
+    pub in_provider_query: Cell<u32>,
     /// H3: value of the repository's propagation-round counter at the last provider event, number
     /// of rounds observed, and what the round monitor objected to
     pub last_round: Cell<u64>,
     pub rounds_seen: Cell<u64>,
     pub round_faults: RefCell<Vec<String>>,
+}
+
+/// Marks the polls of a future as "made by the provider" (`Prov::in_provider_query`).
+pub struct ProviderSide<'a, F> {
+    pub prov: &'a Prov,
+    pub fut: std::pin::Pin<Box<F>>,
+}
+impl<'a, F: std::future::Future> std::future::Future for ProviderSide<'a, F> {
+    type Output = F::Output;
+    fn poll(mut self: std::pin::Pin<&mut Self>, cx: &mut std::task::Context<'_>) -> std::task::Poll<F::Output> {
+        let this = &mut *self;
+        this.prov.in_provider_query.set(this.prov.in_provider_query.get() + 1);
+        let r = this.fut.as_mut().poll(cx);
+        this.prov.in_provider_query.set(this.prov.in_provider_query.get() - 1);
+        r
+    }
+}
+pub fn provider_side<'a, F: std::future::Future>(prov: &'a Prov, fut: F) -> ProviderSide<'a, F> {
+    ProviderSide { prov, fut: Box::pin(fut) }
 }
 
 /// Logs that a provider call was dropped before it was answered.
@@ -446,6 +471,7 @@ impl Prov {
             cb_events: Cell::new(0),
             raised: Cell::new(false),
             stateful_sort: Cell::new(false),
+            in_provider_query: Cell::new(0),
             last_round: Cell::new(resolvo::verif::verif_propagation_rounds()),
             rounds_seen: Cell::new(0),
             round_faults: Default::default(),
@@ -649,6 +675,9 @@ impl DependencyProvider for Prov {
             Cancel::Transient(c) => k == c,
             Cancel::RaisedAt(_) => self.raised.get(),
         };
+        if self.in_provider_query.get() > 0 {
+            self.log(Ev::PollForProvider(k));
+        }
         self.log(Ev::CancelPoll(k, fire));
         if fire { Some(Box::new(k)) } else { None }
     }
